@@ -918,11 +918,11 @@ def run_property(res, prop, tier, seed, replay, prop_files):
     slice_verdict(res, prop, eval_fn=eval_fn, relevant=BROKER_FLAGS, scenarios=scs, traces_steps=steps,
                   oracle=oracle, run_witness=run_witness, component="broker",
                   theorem_hint="Props/%s.v (theorems about Model/Broker.v)" % prop, shrink=shrink)
-    if tier == "thorough" and prop in ("C04", "C05") and not replay:
+    if prop in ("C04", "C05") and not replay:
         # the ledgers are built from what the ticks report: one backtest driven through more than 11 000 executed trades,
-        # in lockstep with the model and with the direct reading "one reported trade per executed order"
+        # read directly ("one reported trade per executed order"); in the thorough tier also in lockstep with the model
         import server
-        res.coverage.update(server.run_long_history(res, prop, wd, seed, 225, 50))
+        res.coverage.update(server.run_long_history(res, prop, wd, seed, 225, 50, lockstep=(tier == "thorough")))
     keys = set()
     n_steps = 0
     for sc, st in zip(scs, steps):
